@@ -996,7 +996,7 @@ MUTANTS = [
             // If we pushed a non-zero amount of PDI bytes, process the response
             if let Some((bytes_in_this_chunk, _pdu_handle)) = pushed_chunk {""")]},
     # ---------------- ERRDROP (error discipline) ----------------
-    {"id": "err-c11-eeprom-mode-send-dropped", "property": "C11", "expect": "C11.err|SubDeviceRef::set_eeprom_mode|adaptor:Result::ok",
+    {"id": "err-c11-eeprom-mode-send-dropped", "property": "C11", "expect": "C11.err|SubDeviceRef::set_eeprom_mode|unused-test:Result::ok",
      "edits": [("src/subdevice/mod.rs", "            .send(self.maindevice, mode)\n            .await?;\n\n        Ok(())", "            .send(self.maindevice, mode)\n            .await\n            .ok();\n\n        Ok(())")]},
     {"id": "err-c09-new-mode-result-ignored", "property": "C09", "expect": "C09.err|SubDevice::new|unused", "also": ["C11"],
      "edits": [("src/subdevice/mod.rs", "        subdevice_ref.set_eeprom_mode(SiiOwner::Master).await?;\n\n        let eeprom = subdevice_ref.eeprom();", "        let _ = subdevice_ref.set_eeprom_mode(SiiOwner::Master).await;\n\n        let eeprom = subdevice_ref.eeprom();")]},
